@@ -49,9 +49,33 @@ def Logical.joined (c : Char) (keep : Bool) (lg : Logical) : Str := joinedParts 
 /-- the value of an option: `True` (`none`) or the text to the right of `kv_sep` -/
 abbrev OptDict := List (Str × Option Str)
 
-/-- `make_kv(opt)`; `kv_sep in opt` with an empty `kv_sep` is true and `opt.split('', 1)` raises ValueError;
-    `v[0]` on an empty `v` raises IndexError (only evaluated with `strip_quotes`) -/
+/-- `make_kv(opt)`; `kv_sep in opt` with an empty `kv_sep` is true and `opt.split('', 1)` raises ValueError; with
+    `strip_quotes` a NON-EMPTY value that begins and ends with the same quote character loses both (`v[1:-1]`: a value
+    that is one lone quote character becomes empty); an empty value stays empty (`strip_quotes and v and …`, fix d975e2b) -/
 def makeKv (kvSep : Option Str) (stripQuotes : Bool) (opt : Str) : Except Err (Str × Option Str) :=
+  match kvSep with
+  | none => .ok (opt, none)
+  | some sep =>
+    if sep.isEmpty then .error .valueError else
+    match splitFirst sep opt with
+    | none => .ok (opt, none)
+    | some (k, v) =>
+      if stripQuotes then
+        match v with
+        | [] => .ok (strip k, some [])
+        | q :: _ =>
+          if (q = '"' ∨ q = '\'') ∧ v.getLast? = some q then .ok (strip k, some (v.drop 1).dropLast)
+          else .ok (strip k, some v)
+      else .ok (strip k, some v)
+
+/-- `optlist_to_dict(optlist, opt_sep, kv_sep, strip_quotes)`; the observable is `list(result.items())` -/
+def optlistToDict (optlist optSep : Str) (kvSep : Option Str) (stripQuotes : Bool) : Except Err OptDict :=
+  if optSep.isEmpty then .error .valueError
+  else (fromPairs ·) <$> (splitSep optSep none optlist).mapM (makeKv kvSep stripQuotes)
+
+/-- the rule BEFORE fix d975e2b (`strip_quotes and v[0] in …`): `v[0]` on an empty value raised IndexError.
+    Kept only for the regression lemmas `optlist_old_rule_witness` / `optlist_old_rule_violates`. -/
+def makeKvOld (kvSep : Option Str) (stripQuotes : Bool) (opt : Str) : Except Err (Str × Option Str) :=
   match kvSep with
   | none => .ok (opt, none)
   | some sep =>
@@ -67,10 +91,9 @@ def makeKv (kvSep : Option Str) (stripQuotes : Bool) (opt : Str) : Except Err (S
           else .ok (strip k, some v)
       else .ok (strip k, some v)
 
-/-- `optlist_to_dict(optlist, opt_sep, kv_sep, strip_quotes)`; the observable is `list(result.items())` -/
-def optlistToDict (optlist optSep : Str) (kvSep : Option Str) (stripQuotes : Bool) : Except Err OptDict :=
+def optlistToDictOld (optlist optSep : Str) (kvSep : Option Str) (stripQuotes : Bool) : Except Err OptDict :=
   if optSep.isEmpty then .error .valueError
-  else (fromPairs ·) <$> (splitSep optSep none optlist).mapM (makeKv kvSep stripQuotes)
+  else (fromPairs ·) <$> (splitSep optSep none optlist).mapM (makeKvOld kvSep stripQuotes)
 
 /-- an option as rendered: a bare flag, or `key`, blanks, `kv_sep`, value (the key may be padded: it is stripped) -/
 inductive OptItem where
